@@ -29,6 +29,19 @@ import (
 
 var c02DropFamily = []string{
 	"/d/{s}", "/d/{s=**}", "/d/{s=bb/*}", "/d/{s=bb/**}", "/d/{s=*/x}", "/d/*", "/d/**", "/d/bb/{t}", "/d/{s}/x", "/d/bb", "/d/{s=bb}",
+	// one method with several bindings (" + " = additional binding) below sibling variables of the
+	// shared node: the multi-pattern resource name
+	"/d/{s=p/*} + /d/{s=f/*} + /d/{s=o/*}",
+	"/d/{t=f/*/k} + /d/{t=g/*/k} + /d/{t=h/*/k} + /d/{t=i/*/k}",
+}
+
+func c02DropRule(member string) *dyn.Rule {
+	parts := strings.Split(member, " + ")
+	r := &dyn.Rule{Kind: "get", Path: parts[0]}
+	for _, a := range parts[1:] {
+		r.Add = append(r.Add, dyn.Rule{Kind: "get", Path: a})
+	}
+	return r
 }
 
 type c02DropWorld struct {
@@ -48,7 +61,7 @@ func newC02DropWorld() *c02DropWorld {
 	}
 	for i, t := range c02DropFamily {
 		f := dyn.File{Name: fmt.Sprintf("vd/s%d.proto", i), Pkg: "vd", Deps: []protoreflect.FileDescriptor{mfd}, Services: []dyn.Service{{Name: fmt.Sprintf("S%d", i), Methods: []dyn.Method{
-			{Name: "M", In: "Req", Out: "Rsp", Rule: &dyn.Rule{Kind: "get", Path: t}},
+			{Name: "M", In: "Req", Out: "Rsp", Rule: c02DropRule(t)},
 		}}}}
 		fd, _, err := f.Build()
 		if err != nil {
@@ -111,12 +124,14 @@ func c02AfterDrop(c *Ctx) {
 	n := len(c02DropFamily)
 	// probes: every instantiation of every family member with fills {x, bb}, plus near misses
 	probeSet := map[string]bool{"/d": true, "/d/": true, "/d/bb/x/x": true, "/d/x/x/x": true}
-	for _, ts := range c02DropFamily {
-		t, _, _, err := tmpl.Parse(ts)
-		if err != nil {
-			panic(err)
+	for _, member := range c02DropFamily {
+		for _, ts := range strings.Split(member, " + ") {
+			t, _, _, err := tmpl.Parse(ts)
+			if err != nil {
+				panic(err)
+			}
+			t.Instantiate([]string{"x", "bb"}, 2, func(p string, _ tmpl.Capture) { probeSet[p] = true })
 		}
-		t.Instantiate([]string{"x", "bb"}, 2, func(p string, _ tmpl.Capture) { probeSet[p] = true })
 	}
 	var probes []string
 	for p := range probeSet {
